@@ -1,6 +1,57 @@
 -------------------------------- MODULE JC15 --------------------------------
-(* C15 — contract of the recorded events of this property (stub).           *)
-EXTENDS BigNat
+(* C15 — all routes to the same operation give bit-identical results.       *)
+(* A "grp" event is one operation on one input through all its routes:      *)
+(* outs[i] = 4*v + code (0 ok(v), 1 none, 2 panic, 3 err) of route i,       *)
+(* ps[i] = bits precision of a boxed result (0 otherwise).  Forms are       *)
+(* labels of ONE action, so                                                 *)
+(*   (1) all outcomes of the group are identical,                           *)
+(*   (2) every boxed result has the documented precision pexp,              *)
+(*   (3) the common outcome is the mathematical one (closed forms below).   *)
+EXTENDS BigNat, Sequences
 
-JudgeC15(e, rg) == FALSE
+LOCAL C15Ok(v)  == Shl(v, 2)
+LOCAL C15None   == One
+LOCAL C15Panic  == Two
+
+LOCAL C15Want(e) ==        \* expected encoded outcome, or <<-1>> when the class has no closed form here
+  LET w == e.bits
+      T == Pow2(w)
+  IN CASE e.cls = "wadd"  -> C15Ok(Mod2k(Add(e.a, e.b), w))
+       [] e.cls = "cadd"  -> IF Fits(Add(e.a, e.b), w) THEN C15Ok(Add(e.a, e.b)) ELSE C15None
+       [] e.cls = "padd"  -> IF Fits(Add(e.a, e.b), w) THEN C15Ok(Add(e.a, e.b)) ELSE C15Panic
+       [] e.cls = "wsub"  -> C15Ok(SubMod2k(e.a, e.b, w))
+       [] e.cls = "csub"  -> IF Ge(e.a, e.b) THEN C15Ok(Sub(e.a, e.b)) ELSE C15None
+       [] e.cls = "wmul"  -> C15Ok(Mod2k(Mul(e.a, e.b), w))
+       [] e.cls = "cmul"  -> IF Fits(Mul(e.a, e.b), w) THEN C15Ok(Mul(e.a, e.b)) ELSE C15None
+       [] e.cls = "pmul"  -> IF Fits(Mul(e.a, e.b), w) THEN C15Ok(Mul(e.a, e.b)) ELSE C15Panic
+       [] e.cls = "mulhi" -> C15Ok(Shr(Mul(e.a, e.b), w))
+       [] e.cls = "divq"  -> C15Ok(Div(e.a, e.b))
+       [] e.cls = "divr"  -> C15Ok(Mod(e.a, e.b))
+       [] e.cls = "shl"   -> IF e.s >= w THEN C15None ELSE C15Ok(Mod2k(Shl(e.a, e.s), w))
+       [] e.cls = "shr"   -> IF e.s >= w THEN C15None ELSE C15Ok(Shr(e.a, e.s))
+       [] e.cls = "wshl"  -> IF e.s >= w THEN C15Ok(Zero) ELSE C15Ok(Mod2k(Shl(e.a, e.s), w))
+       [] e.cls = "bits"  -> C15Ok(FromInt(BitLen(e.a)))
+       [] e.cls = "tz"    -> C15Ok(FromInt(IF e.a = Zero THEN w ELSE TrailingZeros(e.a)))
+       [] e.cls = "sqrt"  -> C15Ok(ISqrt(e.a))
+       [] e.cls = "gcd"   -> C15Ok(Gcd(e.a, e.b))
+       [] e.cls = "addmod" -> C15Ok(Mod(Add(e.a, e.b), e.m))
+       [] e.cls = "submod" -> C15Ok(Mod(Sub(Add(e.a, e.m), e.b), e.m))
+       [] e.cls = "mulmod" -> C15Ok(Mod(Mul(e.a, e.b), e.m))
+       [] e.cls = "invmod" -> LET r == ModInv(e.a, e.m) IN
+                              IF r[1] THEN (IF e.m = One THEN <<-1>> ELSE C15Ok(r[2])) ELSE C15None
+       [] e.cls = "powmod" -> C15Ok(ModPow(e.a, e.b, e.m))
+       [] OTHER -> <<-1>>
+
+LOCAL C15Grp(e) ==
+  LET n == Len(e.outs)
+      want == C15Want(e)
+  IN /\ e.k = "ok"
+     /\ n >= 2 /\ Len(e.ps) = n
+     /\ \A i \in 1..n : e.outs[i] = e.outs[1]                             \* (1) routes agree
+     /\ \A i \in 1..n : (e.ps[i] # Zero => e.ps[i] = FromInt(e.pexp))       \* (2) documented precision
+     /\ (want # <<-1>> => e.outs[1] = want)                                \* (3) and agree with the mathematics
+
+JudgeC15(e, rg) ==
+  CASE e.op = "grp" -> C15Grp(e)
+    [] OTHER -> FALSE
 =============================================================================
